@@ -15,6 +15,7 @@ import (
 	"fmt"
 	"go/token"
 	"os"
+	"os/exec"
 	"path/filepath"
 	"runtime/debug"
 	"sort"
@@ -32,6 +33,19 @@ type Obligation struct {
 	Detail    string `json:"detail,omitempty"`
 }
 
+// configEnv maps a configuration name to loader settings ("GOOS=..." or "-tags=...").
+func configEnv(name string) []string {
+	switch name {
+	case "windows":
+		return []string{"GOOS=windows", "CGO_ENABLED=0"}
+	case "darwin":
+		return []string{"GOOS=darwin", "CGO_ENABLED=0"}
+	case "datadog":
+		return []string{"-tags=datadog"}
+	}
+	return nil
+}
+
 type ruleFn func(c *Ctx)
 
 type rule struct {
@@ -39,6 +53,30 @@ type rule struct {
 	Doc   string // the rule applied, in one sentence
 	Floor int    // minimum number of obligations confirmed by hand on the reference tree
 	Run   ruleFn
+}
+
+// ruleConfigs lists, per rule id, the additional build configurations the thorough tier
+// re-runs the rule under (the code it inspects lives in build-constrained files or is shared
+// by every platform).
+var ruleConfigs = map[string][]string{
+	"C18.name-sanitised":   {"windows", "darwin"},
+	"C18.node-paths":       {"windows", "darwin"},
+	"C18.sole-constructor": {"windows", "darwin"},
+	"C18.join-root":        {"darwin"},
+	"C18.lstat-dir":        {"windows", "darwin"},
+	"C19.bounded-alloc":    {"windows", "darwin"},
+	"C19.size-floor":       {"windows", "darwin"},
+	"C19.slice-guards":     {"windows", "darwin"},
+	"C19.tainted-loops":    {"windows", "darwin"},
+	"C20.compress-api":     {"datadog"},
+	"C20.names":            {"windows", "darwin", "datadog"},
+	"C20.one-switch":       {"datadog"},
+	"C05.restore-matrix":   {"darwin"},
+	"C05.mode-tables":      {"darwin"},
+	"C16.format-filter-by-option": {"windows", "darwin"},
+	"C03.backends":         {"windows", "darwin", "datadog"},
+	"C07.done-is-error":    {"windows", "darwin"},
+	"C08.store-typestate":  {"windows", "darwin"},
 }
 
 type property struct {
@@ -63,6 +101,7 @@ func main() {
 	listRules := flag.Bool("rules", false, "list rules and exit")
 	verbose := flag.Bool("v", false, "print every obligation")
 	noSelftest := flag.Bool("no-selftest", false, "thorough tier without the variant self-test")
+	config := flag.String("config", "", "build configuration: '' (linux/amd64), windows, darwin, datadog")
 	dumpCodec := flag.Bool("dump-codec", false, "print the encoder/decoder field tables and exit")
 	selftestOnly := flag.String("selftest", "", "run only the variant self-test of the given property (comma list or 'all') and print the outcome")
 	flag.Parse()
@@ -147,7 +186,7 @@ func main() {
 	}
 
 	start := time.Now()
-	c, err := load(*repo, *overlay, nil)
+	c, err := load(*repo, *overlay, configEnv(*config))
 	if err != nil {
 		for _, id := range ids {
 			fmt.Printf("UNDECIDED property=%s reason=%v\n", id, err)
@@ -155,6 +194,10 @@ func main() {
 		os.Exit(2)
 	}
 	c.Tier = *tier
+	c.ConfigName = *config
+	if *tier == "thorough" {
+		explorerBoost = 1
+	}
 	loadS := time.Since(start).Seconds()
 
 	known := readKnown(filepath.Join(*verif, "known-findings.txt"))
@@ -166,10 +209,14 @@ func main() {
 		res.WallS = time.Since(t0).Seconds() + loadS
 		res.Seed = seed
 		var st *selftestResult
+		if *tier == "thorough" && *config == "" && !*noEvidence {
+			res.Configs = runConfigs(*repo, *verif, id, c, res)
+		}
 		if *tier == "thorough" && !*noSelftest && !*noEvidence {
 			st = runSelftest(*repo, *verif, id)
 			res.WallS = time.Since(t0).Seconds() + loadS
 		}
+		res.WallS = time.Since(t0).Seconds() + loadS
 		if !*noEvidence {
 			if err := writeEvidence(*verif, c, registry[id], res, st); err != nil {
 				fmt.Printf("UNDECIDED property=%s reason=cannot write evidence: %v\n", id, err)
@@ -216,7 +263,78 @@ func main() {
 	os.Exit(exit)
 }
 
+type configRun struct {
+	Config      string `json:"config"`
+	Rules       []string `json:"rules"`
+	Obligations int    `json:"obligations"`
+	Violations  int    `json:"violations"`
+	Status      string `json:"status"`
+}
+
+// runConfigs re-runs, each in a child process, the rules of the property that are declared for
+// further build configurations (GOOS=windows, GOOS=darwin, -tags datadog).
+func runConfigs(repo, verif, id string, c *Ctx, res *result) []configRun {
+	want := map[string][]string{}
+	for _, r := range registry[id].Rules {
+		for _, cfg := range ruleConfigs[r.ID] {
+			want[cfg] = append(want[cfg], r.ID)
+		}
+	}
+	var cfgs []string
+	for k := range want {
+		cfgs = append(cfgs, k)
+	}
+	sort.Strings(cfgs)
+	self, err := os.Executable()
+	if err != nil {
+		return nil
+	}
+	var out []configRun
+	for _, cfg := range cfgs {
+		cmd := exec.Command(self, "-property", id, "-tier", "quick", "-repo", repo, "-verif", verif, "-config", cfg, "-no-evidence")
+		b, _ := cmd.CombinedOutput()
+		code := cmd.ProcessState.ExitCode()
+		text := string(b)
+		run := configRun{Config: cfg, Rules: want[cfg]}
+		fmt.Sscanf(afterPrefix(text, "obligations="), "%d", &run.Obligations)
+		fmt.Sscanf(afterPrefix(text, "violations="), "%d", &run.Violations)
+		switch code {
+		case 0:
+			run.Status = "held"
+		case 1:
+			run.Status = "violation"
+			for _, l := range strings.Split(text, "\n") {
+				if strings.Contains(l, "violation rule=") {
+					f := strings.Fields(l)
+					ruleID, construct := "", ""
+					for _, w := range f {
+						if strings.HasPrefix(w, "rule=") {
+							ruleID = strings.TrimPrefix(w, "rule=")
+						}
+						if strings.HasPrefix(w, "construct=") {
+							construct = strings.TrimPrefix(w, "construct=")
+						}
+					}
+					res.Obs = append(res.Obs, Obligation{Rule: ruleID, Construct: construct + "@" + cfg, Pos: "-", Verdict: "violation", Detail: "[build configuration " + cfg + "] " + strings.TrimSpace(l)})
+				}
+			}
+		default:
+			run.Status = "undecided: " + lastLine(text)
+		}
+		out = append(out, run)
+	}
+	return out
+}
+
+func afterPrefix(text, key string) string {
+	if i := strings.Index(text, key); i >= 0 {
+		return text[i+len(key):]
+	}
+	return ""
+}
+
 type result struct {
+	Configs []configRun
 	Obs    []Obligation
 	Rules  map[string]int
 	Panic  string
@@ -247,6 +365,17 @@ func runProperty(c *Ctx, p *property, known []knownFinding) (res *result) {
 		}
 	}()
 	for _, r := range p.Rules {
+		if c.ConfigName != "" {
+			applies := false
+			for _, x := range ruleConfigs[r.ID] {
+				if x == c.ConfigName {
+					applies = true
+				}
+			}
+			if !applies {
+				continue
+			}
+		}
 		before := len(c.obs)
 		c.curRule = r.ID
 		r.Run(c)
@@ -376,6 +505,9 @@ func writeEvidence(verif string, c *Ctx, p *property, res *result, st *selftestR
 	}
 	if st != nil {
 		cov["selftest"] = st
+	}
+	if res.Configs != nil {
+		cov["build_configs"] = res.Configs
 	}
 	ev := map[string]any{
 		"property_id": p.ID,
